@@ -987,6 +987,20 @@ class Interp:
             self.vars[name] = (self.vars.get(name) or 0) + x
         return self.neutral()
 
+    # sum() used as a value: the running summation (docs/functions/sum.md "keeps a running summation"); with onmatch on a line that
+    # does not match nothing is added and the value is the unchanged running total
+    def v_sum(self, n, q, a):
+        name = self._name(q, "sum")
+        if not self._gate_onmatch(q):
+            if name not in self.vars:
+                raise Unspecified("value of sum.onmatch before anything was summed")
+            return self.vars[name]
+        v = self._tracked(a[0], "sum")
+        x = float(to_num(v))
+        if not self.frozen:
+            self.vars[name] = (self.vars.get(name) or 0) + x
+        return self.vars.get(name)
+
     # docs/functions/subtotal.md
     def m_subtotal(self, n, q, a):
         if not self._gate_onmatch(q):
